@@ -5,65 +5,65 @@ func init() {
 		Property: "C01", Level: "exploration", OwnsPanics: false,
 		Rule:   "core scenario: one res.Service with generated pattern set (literal, $tag, >, mounted to depth 2; group absent/literal/${tag}/Parallel), 1-32 workers, in-channel 1-1024, a peer sending requests, 0-2 producer goroutines calling With/WithResource/WithGroup (group strings chosen to collide with resource-name groups and tag expansions), query events with query requests and expiry, optional Shutdown/Serve cycles.",
 		Oracle: "every callback does enter(group), yields, exit(group) with the reference group id computed by the harness's own matcher; occupancy of every non-parallel group must be <= 1 at every enter.",
-		Scen:   []ScenBudget{{"core", 6000, 400000}, {"queryevent", 2000, 120000}},
+		Scen:   []ScenBudget{{"core", 24000, 400000}, {"queryevent", 4000, 120000}},
 		Probes: []string{"enqueue onto the registered work item of a busy group", "parallel handlers overlapped", "fault.slow-consumer-drop"},
 	})
 	addCheck(&CheckSpec{
 		Property: "C02", Level: "exploration",
 		Rule:   "same runs as C01 (core scenario, and the queryevent scenario for query-request callbacks).",
 		Oracle: "per group, callback start order must be a linear extension of submission precedence (requests by delivery order; With* calls by return-before-invoke; request-before-With when the listener finished enqueueing before the call); every submission starts at most once, and exactly once at quiescence before a clean Shutdown; With returns an error and runs nothing iff the reference matcher finds no handler.",
-		Scen:   []ScenBudget{{"core", 6000, 400000}, {"queryevent", 2000, 120000}},
+		Scen:   []ScenBudget{{"core", 24000, 400000}, {"queryevent", 4000, 120000}},
 	})
 	addCheck(&CheckSpec{
 		Property: "C03", Level: "exploration", OwnsPanics: true,
 		Rule:   "core scenario with the lifecycle mix: Shutdown at a tape-chosen step while producers, the peer, Reset/ResetAll/TokenEvent/TokenEventWithID/TokenReset callers and foreign-goroutine event emitters are live; 1-3 Serve/Shutdown cycles on one Service.",
 		Oracle: "(tier B runs, real nats.go: Serve returns after Shutdown and the connection is closed when Shutdown returns.) bounded progress once scripted operations stop (Shutdown and Serve return within 60 simulated seconds of the last enabled action); no panic in any task or library goroutine; at Shutdown's return no callback is executing and none starts later in that epoch; connection closed exactly once per epoch; calls entirely inside the started window take effect, calls entirely inside the stopped window have none.",
-		Scen:   []ScenBudget{{"core", 8000, 500000}, {"tierb", 200, 10000}},
+		Scen:   []ScenBudget{{"core", 24000, 500000}, {"tierb", 200, 10000}},
 		Probes: []string{"submission parked between started-check and lock while Shutdown closes the queue", "event parked before its publish while Shutdown runs", "worker woke to a nil queue (closing)", "Shutdown drops work that is queued but not started", "enqueue onto the registered work item of a busy group", "fault.slow-consumer-drop", "parallel handlers overlapped"},
 	})
 	addCheck(&CheckSpec{
 		Property: "C04", Level: "exploration", OwnsPanics: true,
 		Rule:   "requests scenario: a peer sends access/get/call/auth requests (call.<r>.new with and without New handler, * fallbacks, unknown methods and resources, empty/null/malformed payloads, HTTP flag on/off, missing reply subject) at many resources concurrently; handlers follow generated behaviour scripts (reply kinds, pre-responses, events, nested Value, meta setters, double reply, no reply, panic with *Error/error/string/int/nil-deref before or after replying, unmarshalable values); slow-consumer drops, request loss and publish errors are injected.",
 		Oracle: "at quiescence, on each delivered request's unique reply inbox the number of publish attempts that are not pre-responses is exactly 1 (0 only for access without access handler or a request without reply subject); undelivered requests get nothing; no handler panic kills a goroutine.",
-		Scen:   []ScenBudget{{"requests", 6000, 400000}},
+		Scen:   []ScenBudget{{"requests", 18000, 400000}},
 	})
 	addCheck(&CheckSpec{
 		Property: "C05", Level: "exploration",
 		Rule:   "same runs as C04 (requests scenario); resource names with dots and method-like tokens are weighted up.",
 		Oracle: "refinement against an executable dispatch model (own subject split, own matcher, handler selection with new/* rules, not-found/method-not-found/bad-JSON rules) and a response model walking the handler script (reply kinds with exact payloads, meta on HTTP, panic and Error mapping, missing reply); the request view recorded by the handler (rname, method, path params, query, cid, token, params, header, host, remote address, URI, HTTP flag, group) must equal what the peer sent for that inbox while other requests are in flight; responses are also parsed with resprot.ParseResponse.",
-		Scen:   []ScenBudget{{"requests", 6000, 400000}},
+		Scen:   []ScenBudget{{"requests", 18000, 400000}},
 	})
 	addCheck(&CheckSpec{
 		Property: "C08", Level: "exploration",
 		Rule:   "events scenario: resources with every combination of present/absent/failing/no-change apply handlers and 0-3 listeners (registered before the handler, through Handler.Listeners, and after it; on root and mounted muxes); request handlers, With/WithResource callbacks and foreign goroutines run scripts interleaving change/add/remove/create/delete/reaccess/custom events with pre-responses and the reply, including invalid calls (wrong resource type, negative index, reserved or malformed names, empty change).",
 		Oracle: "one global log receives entries from apply handlers, from SimConn at publish time and from listeners, stamped with event sequence number and task; for each callback the entries made on its task between enter and exit must equal the predicted sequence (apply, publish, listeners in registration order with the call's values and the apply handler's return; nothing for failed/empty/invalid calls; pre-responses and reply in program order); no event publish or listener entry may lie outside its callback's window or on another task.",
-		Scen:   []ScenBudget{{"events", 6000, 400000}},
+		Scen:   []ScenBudget{{"events", 18000, 400000}},
 	})
 	addCheck(&CheckSpec{
 		Property: "C09", Level: "exploration",
 		Rule:   "subs scenario: swarm over service name (empty, simple, dotted), ownership nil or explicit lists (overlapping, nested, duplicated, wildcarded, empty, foreign entries), handler-kind combinations, queue group default/empty/named; the service is served on the simulated broker, which enforces NATS subject rules at subscribe time; ResetAll from a foreign goroutine.",
 		Oracle: "for generated concrete request subjects inside, at the boundary of and outside every owned pattern and for each request type: a subject under >=1 owned pattern is routed to >=1 subscription, under exactly one owned pattern to exactly one (and gets exactly one response end to end), under none to none; every subscribed subject is a valid NATS subject; the first message of the epoch and every later system.reset list exactly the owned patterns of the ownership model (defaults: name and name.> per handler kind actually registered, > when the name is empty).",
-		Scen:   []ScenBudget{{"subs", 4000, 200000}, {"tierb", 300, 15000}},
+		Scen:   []ScenBudget{{"subs", 12000, 200000}, {"tierb", 300, 15000}},
 	})
 	addCheck(&CheckSpec{
 		Property: "C11", Level: "exploration", OwnsPanics: true,
 		Rule:        "storelin scenario: 2-4 client goroutines execute random read/write transactions (Value, Exists, Create, Update, Delete in any order and number, then Close) over ids a,b,c and the empty id, heavily contended on one id; mockstore, and badgerstore on real BadgerDB (typed/untyped, prefix empty/set/dotted, BeforeChange veto, wrong-type values); yields between calls and at the instrumented points before/inside/after each database transaction.",
 		Oracle:      "(1) porcupine linearizability check of the recorded history (invoke/return stamped with the simulator's event sequence numbers, partitioned by id) against a KV model of the documented contract; Unknown is counted as inconclusive, never reported; (2) call-by-call error contract (Create on existing id fails with an error that is or wraps store.ErrDuplicate; Update/Delete/Value on a missing id with store.ErrNotFound); (3) isolation: no call of another client's transaction on the id returns while a write transaction is open, and for mockstore the real lock is probed with TryLock/TryRLock after every step against the harness's transaction table; (4) callbacks: exactly one OnChange per successful mutation on the caller's task with before equal to the previous after per id, none for failed operations; final reads included in the history.",
-		Scen:        []ScenBudget{{"storelin", 2500, 120000}},
+		Scen:        []ScenBudget{{"storelin", 10000, 120000}},
 		Assumptions: []string{"jirenius/keylock is replaced by a scheduler-visible stub with the same API and RW semantics", "mockstore transactions are entered only when the harness's own table says they will not block (sync.RWMutex waits are invisible to synctest); the real lock is probed after every step"},
 	})
 	addCheck(&CheckSpec{
 		Property: "C10", Level: "exploration", OwnsPanics: true,
 		Rule:        "storecoh scenario: store.Handler over mockstore and over badgerstore on real BadgerDB; model and collection resources; no transformer / IDTransformer / custom transform (dropping a property, mapping members to references); with and without default; 1-3 rounds in which 1-3 mutator goroutines run create/update/delete transactions (values from primitives, references, soft references, data values; collections over a 3-letter alphabet up to length 4), contended on one id, with yields inside transactions (badgerstore) and at every publish, and gets racing the mutations.",
 		Oracle:      "a reference RES client cache (own code) fetches every resource at a quiescent instant, then applies in connection order every event published for the resource during the round (change with delete actions, add/remove with index range checks at application time, create/delete flipping the missing state) and must equal a fresh get at the next quiescent instant; an event that cannot be applied, a missing-state mismatch or stale data is a violation.",
-		Scen:        []ScenBudget{{"storecoh", 2500, 120000}},
+		Scen:        []ScenBudget{{"storecoh", 10000, 120000}},
 		Assumptions: []string{"mockstore transactions are atomic steps (no yield while its lock is held); interleavings inside transactions are explored on badgerstore with the keylock stub"},
 	})
 	addCheck(&CheckSpec{
 		Property: "C13", Level: "exploration", OwnsPanics: true,
 		Rule:        "index scenario: badgerstore + QueryStore with two indexes on real BadgerDB (prefix empty or set); 1-3 mutator goroutines create/update/delete values whose keys come from a small printable alphabet (including unindexed nil keys, keys that are prefixes of each other, ids of different lengths); the real taskqueue index worker is parked at the start of each index task and after its commit; in query rounds every mutator is frozen between transactions while the index worker stays schedulable, and a query task calls Flush() then Query for generated (index, prefix incl. separator bytes, filter, offset, limit incl. negative and zero, reverse).",
 		Oracle:      "result equals the reference: ids of the model values whose key has the prefix and passes the filter, sorted bytewise by (key, id), reversed if asked, then windowed; exact because the mutators are frozen.",
-		Scen:        []ScenBudget{{"index", 2500, 100000}},
+		Scen:        []ScenBudget{{"index", 8000, 100000}},
 		Probes:      []string{"Flush called while an index task is parked"},
 		Assumptions: []string{"index keys never contain the separator byte 0x00 (prefixes do)"},
 	})
@@ -71,7 +71,7 @@ func init() {
 		Property: "C14", Level: "exploration",
 		Rule:   "index scenario (store layer): as C13 plus an OnQueryChange recorder evaluating queries and QueryChange.Events for generated queries inside the callback, on the index worker. qsub scenario (handler layer): store.QueryHandler on a simulated service over badgerstore+QueryStore: an ordinary resource over the whole index, ordinary resources parameterised by a key prefix with an AffectedResources callback, and a query resource; a reference client holds seven results, re-gets on system.reset and sends a query request on the subject announced by a query event; 1-2 mutator goroutines, the index worker and the query listeners are interleaved by the tape. qmock scenario (handler layer, event path): the same resources plus model-typed ones (IDToRIDModelTransformer) over a reference query store written for the harness whose query changes describe themselves by add/remove events instead of a reset, which badgerstore never does; the client applies the events of ordinary resources and of query responses (one query event at a time per result, requests optionally sent late) and must end up with what a fresh get returns.",
 		Oracle: "exactly one query-change callback per mutation that changes some index key and none otherwise, per id in mutation order, after the mutation; inside the callback a query for the new key already returns the id and for the old key no longer does; Events(q) reports affected whenever the reference result of q differs between the index state before and after the update, and unaffected whenever neither old nor new key matches q's prefix and filter; handler layer: at quiescence every result the client holds (updated only through the notifications it received) equals a fresh get.",
-		Scen:   []ScenBudget{{"index", 2500, 100000}, {"qsub", 1500, 60000}, {"qmock", 1500, 60000}},
+		Scen:   []ScenBudget{{"index", 6000, 100000}, {"qsub", 3000, 60000}, {"qmock", 3000, 60000}},
 	})
 	addCheck(&CheckSpec{
 		Property: "C12", Level: "fault_enumeration", OwnsPanics: true,
@@ -84,27 +84,27 @@ func init() {
 		Property: "C15", Level: "exploration", OwnsPanics: true,
 		Rule:        "queryevent scenario: call handlers start 1-4 query events per run on resources in shared groups; the peer sends query requests (valid, missing query, malformed JSON) at tape-chosen instants relative to expiry: well inside the window, buffered in the subscription channel when the timer fires, after the drain was requested, more than the channel holds at once; callbacks reply with model/collection/events/errors, panic with each value kind or do nothing; the query subscription fails for some; expiry by advancing the simulated clock (50 ms, 1 s, 3 s durations).",
 		Oracle:      "each query request delivered while the event was active gets exactly one response of the predicted kind (error for missing query or malformed payload); callbacks run under the C01 occupancy counter of the resource's group; after expiry the callback was invoked with nil exactly once, not before the configured duration, and no invocation with a request starts after it; a failed subscription yields exactly one nil call and no query event; after everything settled and the service was shut down no goroutine of the process is inside startQueryListener.",
-		Scen:        []ScenBudget{{"queryevent", 4000, 250000}, {"tierb", 300, 15000}},
+		Scen:        []ScenBudget{{"queryevent", 12000, 250000}, {"tierb", 300, 15000}},
 		Assumptions: []string{"tier A cannot observe Subscription.Drain on the zero-value subscription it hands out; the server-side effect of Drain is emulated at the instrumented point directly after the Drain call"},
 	})
 	addCheck(&CheckSpec{
 		Property: "C19", Level: "exploration", OwnsPanics: true,
 		Rule:        "sendreq scenario (tier A): resprot.SendRequest runs as a task against a scripted peer on the simulated clock: up to 5 messages with delays of 0 ms to 4 s drawn from valid results, error and resource responses, garbage, empty payload, timeout pre-responses and malformed pre-responses; messages that arrive back to back while the requester has not started waiting (inbox channel capacity 1, drop on full as nats.go does); failing subscribe or publish; nil, object and unmarshalable request values; 0-2 extension callbacks. Arrival instants and deadlines never coincide (10 ms grid versus 5 ms offsets), so timer and inbox are never ready together.",
 		Oracle:      "a timed reference model walks the script and predicts the returned response (kind, error code, result, resource id), the exact simulated instant of return and the durations handed to the extension callbacks; all three must match; SendRequest must return within 80 simulated seconds.",
-		Scen:        []ScenBudget{{"sendreq", 6000, 400000}, {"tierb", 300, 15000}},
+		Scen:        []ScenBudget{{"sendreq", 18000, 400000}, {"tierb", 300, 15000}},
 		Assumptions: []string{"tier A hands out a zero-value subscription, so the release of the inbox subscription is not observable here"},
 	})
 	addCheck(&CheckSpec{
 		Property: "C20", Level: "exploration", OwnsPanics: true,
 		Rule:   "legacy scenario: a simulated service whose model and collection resources use middleware.BadgerDB or resbadger.Model/Collection (typed and untyped, with and without default) on real BadgerDB; 1-3 producer goroutines per round submit With callbacks that emit scripted change (incl. delete actions and unchanged values), add, remove, create and delete events (incl. out-of-range indexes, create on existing, change on missing) on resources in different groups, so applies interleave on different workers against one database; crash images at sampled decision points; clean reopen at the end.",
 		Oracle: "a reference model folds the applicable events over the initial/default value: per event, an inapplicable one must publish nothing (and leave storage unchanged), an applicable one publishes exactly one message, an unchanged change publishes nothing; change listeners get the previous stored values as old values and delete listeners the previous stored value; Value() inside the callback, get at every quiescent instant and get after reopening the database equal the fold; in a crash image each resource holds the fold of the returned events with the one in flight either included or not.",
-		Scen:   []ScenBudget{{"legacy", 2000, 80000}},
+		Scen:   []ScenBudget{{"legacy", 4000, 80000}},
 	})
 	addCheck(&CheckSpec{
 		Property: "C16", Level: "exploration", Race: true, OwnsPanics: false,
 		Rule:        "race scenario built with -race: one service with per-resource groups, a shared group and Parallel resources (handlers write per-group scratch memory without locks), requests and query requests injected by the scheduler, 1-2 producer goroutines calling With/WithResource/WithGroup/QueryEvent, Reset/ResetAll/TokenEvent/TokenEventWithID/TokenReset and emitting events from foreign goroutines, optionally store.Handler and store.QueryHandler over badgerstore + QueryStore on real BadgerDB with mutator goroutines, an index querier calling Query and Flush, the library's own MemLogger or StdLogger, Shutdown at tape-chosen steps and up to two Serve/Shutdown cycles. The harness is hidden from the detector: its synchronisation is wrapped in runtime.RaceDisable, its shared state lives in //go:norace functions without maps, and the scheduler goroutine never acquires from tasks.",
 		Oracle:      "the Go race detector's error count must not rise during a run; each report is attributed to its run and classified by the top go-res frame of its two stacks; reports without a go-res frame are counted as third-party, reports entirely inside the harness are simulator trouble (exit 2), never violations.",
-		Scen:        []ScenBudget{{"race", 1500, 40000}},
+		Scen:        []ScenBudget{{"race", 4000, 40000}},
 		Assumptions: []string{"the race detector only sees conflicting accesses of the interleavings actually executed; serial execution is compensated by hiding the scheduler's hand-offs, so any two conflicting accesses the library leaves unordered in an explored schedule are reported"},
 	})
 	addCheck(&CheckSpec{
